@@ -61,6 +61,9 @@ CLAIMED = {
  'C20': dict(cat='proof', tech='cargo feature resolution (manifest analysis) + cfg reachability and sibling-expression identity on the MIR of the build configurations',
    text='Partial claim: the feature wiring (fastmath on by default, off with --no-default-features) is read from cargo\'s own resolution; in the fastmath-off build powf/expf/cbrtf are exactly the libm calls; the fused and unfused arms of every FMA switch denote a*b+c; the conversion kernels outside the helpers are identical expressions in both builds; C01/C02/C08 budgets are re-established in the FMA build.',
    ref='3/C20', note='NOT decided: numeric agreement of the fastmath and libm builds within the fastmath budget (approximation accuracy). ' + TB),
+ 'C17': dict(cat='proof', tech='per-cell branch resolution of the kernels extracted from MIR (exact rational evaluation at a generic point) + rational-function identities (sympy) + linear inequalities at simplex vertices; exact folding',
+   text='Partial claim (formula level): on each of the 6 strict orderings of (r,g,b) x {L<1/2, L>1/2} the branch structure of both kernels is constant; the rational functions the code computes there are shown identical to the hexcone definition (H, S, L), the composition hsl_to_lrgb(lrgb_to_hsl(p)) identical to p, and H in [0,360) by linear inequalities at the simplex vertices; L=0 -> black and L=1 -> white for every finite hue/saturation by exact folding.',
+   ref='3/C17', note='NOT decided: the rounding tolerances (1e-6, 1e-4, 0.01 deg, 1e-5), S <= 1 under rounding, the epsilon-slivers around ties/black/white. ' + TB),
 }
 NA_REASON = {}
 
